@@ -492,6 +492,10 @@ def run(ctx: core.Ctx) -> int:
         ctx.oblige("PURE", f"{F}:{CLS}.{name}", f"{len(ws)} write effect(s) besides self.model_", not ws, file=F, func=f"{CLS}.{name}",
                    construct="writes:" + ";".join(sorted(w.kind + " " + w.target for w in ws)),
                    msg=f"{name} changes estimator state: " + "; ".join(f"{w.kind} {w.target} (line {w.line})" for w in ws))
+    # no module-level / class-level mutable state shared between filters: one filter's construction or update must not reach another's (shared with C01)
+    from . import c15 as _c15pp
+    ctx.rule("PY-PURE", "no module-level / class-level mutable state shared between filters (shared with C01)")
+    _c15pp.gen_pure(ctx, {"python": "py/formak/python.py", "common": "py/formak/common.py"}, rule="PY-PURE", floor=40)
     return core.finish(ctx, explanation="structural (def-use resolved) rules on the adapter's row consumption and call sequence, E3 normal form of the "
                                         "NIS and score, effect analysis", **META)
 
